@@ -620,7 +620,7 @@ func init() {
 			return "", err
 		}
 		// the encoders the C15 model is about must be there
-		need := map[string]bool{"QueryLabelsService.GenericLabelReq": false, "QueryLabelsService.Series": false, "QueryRangeService.exportStreamsValue": false,
+		need := map[string]bool{"QueryLabelsService.GenericLabelReq": false, "QueryLabelsService.series": false, "QueryRangeService.exportStreamsValue": false,
 			"QueryRangeService.QueryRange": false, "QueryRangeService.QueryInstant": false, "QueryRangeService.Tail": false, "TempoController.Tags": false,
 			"TempoController.Values": false, "TempoController.Search": false, "TempoController.Trace": false, "writeResponse": false, "writeVector": false,
 			"writeMatrix": false, "writeScalar": false}
